@@ -134,13 +134,13 @@ impl Loop {
             };
 
             if add_step_value {
-                value += x;
+                value = value.saturating_add(x);
             }
             if subtract_const_value {
-                value = x - value;
+                value = x.saturating_sub(value);
             }
             if subtract_x_step {
-                value -= x;
+                value = value.saturating_sub(x);
             }
             parameters.push(value);
         }
@@ -154,9 +154,9 @@ impl Loop {
             res
         };
         if self.from < self.to {
-            self.i += self.step;
+            self.i = self.i.saturating_add(self.step);
         } else {
-            self.i -= self.step;
+            self.i = self.i.saturating_sub(self.step);
         }
 
         match res {
